@@ -25,11 +25,14 @@ CHECKS = {
               "two-handler system under arbitrary fault schedules - the check evaluates exactly that on the implementation (file read "
               "back at every success report, either side, drop/dup/delay/bit-flip/write-reject schedules, any number of faults).",
               "6/C01"),
-    "C02": _c("Coq: kernel-checked exhaustive evaluation of the executable two-handler system (bounded instance, 1152 transfers) + unbounded sender theorem (C07) + correspondence",
-              "Proof (props/C02.v): BOUNDED INSTANCE - vm_compute inside the kernel runs System.v (both handler models, link, canonical "
-              "pacing) for every point of 2 modes x closure x 4 checksum types x 4 segment lengths x NAK mode x 9 sizes and checks "
-              "quiescence, identical file, exactly one successful Transaction-Finished per side, no fault callback, no exception. The "
-              "unbounded two-sided theorem is not proved; the sender half is C07's (all files, all configurations).", "6/C02"),
+    "C02": _c("Coq: unbounded theorems over the executable two-handler system (induction over the file) for unacknowledged, unacknowledged+closure and acknowledged mode + kernel-checked exhaustive evaluation (1152 transfers) + correspondence",
+              "Proof (props/C02.v, C02u.v, C02c.v, C02a.v): UNBOUNDED - for every file content and length, segment length >= 1, id / "
+              "sequence-number width, checksum type and NAK mode, System.v (both handler models + fault-free link) delivers the file "
+              "byte-identical with one successful Transaction-Finished per side, no fault event and no API error, in unacknowledged "
+              "mode, unacknowledged mode with closure and acknowledged mode (timer intervals > 0). BOUNDED INSTANCE in addition - "
+              "vm_compute inside the kernel evaluates 2 modes x closure x 4 checksum types x 4 segment lengths x NAK mode x 9 sizes. "
+              "Destination given as directory / already existing, arbitrary pacing and consecutive transfers on one handler pair are "
+              "covered by the oracle on the implementation.", "6/C02"),
     "C03": _c("Coq: kernel-checked exhaustive evaluation of all schedules with K<=2 link faults (the bound the property names) and K=3 on a small file + unbounded retry/NAK lemmas (C04/C06/C08) + correspondence",
               "PARTIAL proof (props/C03.v): BOUNDED INSTANCES - every schedule of <=2 link faults (drop/duplicate/delay of any PDU "
               "occurrence, either direction) on files of 0/5/9 bytes, both NAK modes, closure on/off, limits K+3, and every schedule "
@@ -38,7 +41,9 @@ CHECKS = {
     "C04": _c("Coq proof (case analysis of the three retry procedures, for all limits N and intervals) + correspondence + virtual-clock oracle",
               "Proof (props/C04.v): EOF-awaiting-ACK, Finished-awaiting-ACK and the NAK procedure: nothing before expiry; expiry k<N "
               "re-sends the same PDU and counts; expiry N declares the limit fault exactly then; during a cancel exchange the limit "
-              "abandons (idle); ACK/progress ends or resets the procedure. For every N and interval.", "6/C04"),
+              "abandons (idle); ACK/progress ends or resets the procedure. For every N and interval. Closed forms (props/C04b.v, C04c.v): with a "
+              "silent peer the sender awaiting ACK(EOF) and the receiver awaiting ACK(Finished) are idle after exactly 2N expiries "
+              "(N-1 re-sends, one EOF/Finished(Positive ACK Limit Reached), N-1 re-sends of it, silent abandon), for every N >= 1.", "6/C04"),
     "C05": _c("Coq proof (whole-state-machine frame property by compositional reasoning + write-model lemmas) + correspondence + write-model oracle",
               "Proof (props/C05.v): for every call on every state no path other than the (resolved) destination path changes; an "
               "accepted File Data PDU turns the file into write_at old offset data (zero fill); pre-Metadata data is never written; "
@@ -76,7 +81,9 @@ CHECKS = {
               "Proof (props/C12.v): cancel returns true iff an active transaction has that id (unchanged state otherwise); sender: "
               "next PDU is EOF(Cancel Request Received, size = progress, checksum of that prefix), file-data step left for good; "
               "receiver: the next call issues Transaction-Finished and, iff closure/acknowledged, the Finished PDU with the local "
-              "entity as fault location; EOF(cancel) finishes with its condition and the sender as fault location; deletion iff disposition.",
+              "entity as fault location; EOF(cancel) finishes with its condition and the sender as fault location; deletion iff disposition. "
+              "Invariant (props/C12b.v, every API call, chains over any history): after the sender's notice of cancellation every File "
+              "Data PDU still emitted lies within the bytes sent before the cancel, the progress never moves, cancelling until idle.",
               "6/C12"),
     "C13": _c("Coq proof (check-limit step lemmas for every limit L + counting induction) + correspondence + schedule-space oracle",
               "Proof (props/C13.v): EOF before all data does not finish the transaction (check timer starts, counter 0); expiry with "
